@@ -7,6 +7,7 @@ mod mk;
 mod runner;
 mod scen_adv;
 mod scen_dgram;
+mod scen_dns;
 mod scen_inject;
 mod scen_peer;
 mod scen_tcp;
@@ -58,6 +59,10 @@ fn adv_154(t: &mut Tape, p: Props, thorough: bool, trace: bool) -> Outcome {
 
 fn injector(t: &mut Tape, p: Props, thorough: bool, trace: bool) -> Outcome {
     scen_inject::run(t, p, thorough, trace)
+}
+
+fn dns_scn(t: &mut Tape, p: Props, thorough: bool, trace: bool) -> Outcome {
+    scen_dns::run(t, p, thorough, trace)
 }
 
 const REAL: &str = "smoltcp::iface::Interface, SocketSet, all socket types used by the scenario, wire, storage, iface::{neighbor,route,fragmentation} - built from /repo's working tree";
@@ -188,9 +193,31 @@ fn defs() -> &'static [CheckDef] {
                 thorough_s: 600.0,
             },
             CheckDef {
+                id: "C19",
+                props: Props::of(&["C19"]),
+                scens: vec![Scen { name: "dns-resolver", weight: 1, run: dns_scn }],
+                rule: "one run = a real DNS socket (1-3 concurrent A/AAAA/mDNS queries) polled exactly per poll_at against a scripted server that answers each wire query with a response that is valid or wrong in exactly one respect (txid, destination port, source port, source address, question name/type, QDCOUNT, QR), NXDomain, truncated at a random byte, with backward/forward/self compression pointers, CNAME chains, delayed, duplicated or withheld; non-trivial = >= 1 query started and >= 2 responses sent; distinct = event-log hash",
+                assumptions: vec!["DNS_MAX_SERVER_COUNT = 1 in the shipped configuration (fail-over to a second server needs the wide build)", "termination bound 40 s per query (one server: transmissions at 0,1,3,7 s, server timeout at 10 s checked at the 15 s retransmission)"],
+                real: REAL,
+                stub: STUB,
+                quick_s: 20.0,
+                thorough_s: 600.0,
+            },
+            CheckDef {
                 id: "C08",
                 props: Props::of(&["C08"]),
-                scens: vec![Scen { name: "tcp-pair-safety", weight: 1, run: tcp_safety }],
+                scens: vec![
+                    Scen { name: "tcp-pair-safety", weight: 2, run: tcp_safety },
+                    Scen { name: "tcp-pair-liveness", weight: 1, run: tcp_liveness },
+                    Scen { name: "tcp-peer-receiver", weight: 1, run: peer_receiver },
+                    Scen { name: "tcp-peer-sender", weight: 1, run: peer_sender },
+                    Scen { name: "tcp-peer-states", weight: 1, run: peer_states },
+                    Scen { name: "dgram-pair-sloppy", weight: 2, run: dgram_sloppy },
+                    Scen { name: "dgram-pair-frag", weight: 2, run: dgram_frag },
+                    Scen { name: "dns-resolver", weight: 1, run: dns_scn },
+                    Scen { name: "adversary-any-medium", weight: 3, run: adv_any },
+                    Scen { name: "injector", weight: 2, run: injector },
+                ],
                 rule: "every emitted packet verified with the independent RFC 1071 implementation; checksum-detectable 1-2 bit damage delivered alone must change no socket and elicit no frame; non-trivial = at least one damaged frame checked or >= 1000 bytes carried; distinct = event-log hash",
                 assumptions: vec!["clause 1 of C08 (the routine as a pure function of every length/alignment) is not decided by simulation"],
                 real: REAL,
@@ -201,7 +228,18 @@ fn defs() -> &'static [CheckDef] {
             CheckDef {
                 id: "C10",
                 props: Props::of(&["C10"]),
-                scens: vec![Scen { name: "tcp-pair-safety", weight: 1, run: tcp_safety }, Scen { name: "tcp-pair-liveness", weight: 1, run: tcp_liveness }],
+                scens: vec![
+                    Scen { name: "tcp-pair-safety", weight: 2, run: tcp_safety },
+                    Scen { name: "tcp-pair-liveness", weight: 1, run: tcp_liveness },
+                    Scen { name: "tcp-peer-receiver", weight: 1, run: peer_receiver },
+                    Scen { name: "tcp-peer-sender", weight: 1, run: peer_sender },
+                    Scen { name: "tcp-peer-states", weight: 1, run: peer_states },
+                    Scen { name: "dgram-pair-sloppy", weight: 2, run: dgram_sloppy },
+                    Scen { name: "dgram-pair-frag", weight: 2, run: dgram_frag },
+                    Scen { name: "dns-resolver", weight: 1, run: dns_scn },
+                    Scen { name: "adversary-any-medium", weight: 3, run: adv_any },
+                    Scen { name: "injector", weight: 2, run: injector },
+                ],
                 rule: "strict independent decoder + MTU + source-address rule on every frame of every scenario; distinct = event-log hash",
                 assumptions: vec!["the strict decoder encodes the harness author's reading of the RFCs"],
                 real: REAL,
@@ -237,6 +275,14 @@ impl log::Log for StdoutLog {
 static LOGGER: StdoutLog = StdoutLog;
 
 fn main() {
+    let r = std::panic::catch_unwind(real_main);
+    if r.is_err() {
+        eprintln!("harness error: the simulator itself panicked");
+        std::process::exit(2);
+    }
+}
+
+fn real_main() {
     let args: Vec<String> = std::env::args().collect();
     if std::env::var("SIM_LOG").is_ok() {
         let _ = log::set_logger(&LOGGER);
@@ -308,3 +354,4 @@ fn main() {
     };
     std::process::exit(code);
 }
+
